@@ -27,6 +27,13 @@ impl Heap {
         self.objects.get_mut(gc_ref.index())?.as_mut()
     }
 
+    /// Adds `bytes` to the accounted size: an object that is already on the heap (a vec) has grown.
+    /// `sweep` subtracts the object's current size, so growth that is not recorded here would later
+    /// be subtracted without ever having been added.
+    pub fn account_growth(&mut self, bytes: usize) {
+        self.bytes_allocated = self.bytes_allocated.saturating_add(bytes);
+    }
+
     pub fn get_type_name(&self, gc_ref: GcRef) -> &'static str {
         if let Some(obj) = self.get(gc_ref) {
             match &obj.kind {
